@@ -320,9 +320,11 @@ impl Lex {
 }
 
 pub fn token_filename(sources: &[(Xstr, Xstr)], token: &Xsubstr) -> Option<Xstr> {
+    // the source the token was cut from, by identity: two sources may hold the same text
     sources
         .iter()
-        .find(|x| &x.1 == token.parent())
+        .find(|x| Xstr::ptr_eq(&x.1, token.parent()))
+        .or_else(|| sources.iter().find(|x| &x.1 == token.parent()))
         .map(|x| x.0.clone())
 }
 
